@@ -104,8 +104,8 @@ func checkC20(c *ctx) {
 	acov := map[string]interface{}{
 		"evaluations":         evals,
 		"distinct_nontrivial": len(distinct),
-		"rule": "Engine T (a): every accepted file of the tool corpus (Engine G programs, static multi-directive files) generated in base and in source-map mode into two identical module copies; outputs parsed without comments and compared structurally (reflection walk over go/ast, positions ignored): all declarations must be identical. distinct = files compared",
-		"samples": samples,
+		"rule":                "Engine T (a): every accepted file of the tool corpus (Engine G programs, static multi-directive files) generated in base and in source-map mode into two identical module copies; outputs parsed without comments and compared structurally (reflection walk over go/ast, positions ignored): all declarations must be identical. distinct = files compared",
+		"samples":             samples,
 	}
 	parts := map[string]map[string]interface{}{"T": acov}
 	if gcov != nil {
